@@ -21,7 +21,8 @@ Finish ==
 GenNext ==
   /\ ~finished
   /\ \/ \E r \in Reqs : Issue(r) /\ Log([a |-> "Issue", r |-> r, up |-> up, quiet |-> Quiet])
-     \/ \E r \in Reqs : (Lookup(r) \/ WaitCall(r)) /\ UNCHANGED hist
+     \/ \E r \in Reqs : (Lookup(r) \/ DialStart(r)) /\ UNCHANGED hist
+     \/ \E r \in Reqs : WaitCall(r) /\ rq'[r] # "done" /\ UNCHANGED hist
      \/ \E r \in Reqs : Dial(r) /\ (IF rq'[r] = "done"
                                       THEN Log([a |-> "Done", r |-> r, out |-> outcome'[r], mayErr |-> sawDown'[r]])
                                       ELSE UNCHANGED hist)
